@@ -3,6 +3,7 @@ package prioh
 import (
 	"context"
 	"math/rand"
+	"os"
 	"runtime"
 	"sync"
 	"testing"
@@ -53,6 +54,9 @@ func freeRunV1(t *testing.T, rnd *rand.Rand, run int) (map[string]any, []obs) {
 	wg.Add(1)
 	go func() { // the owner of the options map keeps looking at it, never synchronising with the discipline (C20: user-visible data)
 		defer wg.Done()
+		if os.Getenv("MAP_OWNER") != "busy" {
+			return
+		}
 		for {
 			select {
 			case <-quit:
